@@ -61,7 +61,7 @@ def field_map(chk: Check, rel: str, name: str):
     if st is None:
         raise AnalysisError(f"ANCHOR-VANISHED struct {rel}::{name}")
     spec = LAYOUTS[(rel, name)]
-    out = {}
+    out = _FieldMap(name)
     for sf in spec["fields"]:
         sig = _spec_sig(sf)
         for f in st.fields:
@@ -69,6 +69,15 @@ def field_map(chk: Check, rel: str, name: str):
                 out[sf[0]] = f
                 break
     return st, out
+
+
+class _FieldMap(dict):
+    def __init__(self, struct):
+        super().__init__()
+        self.struct = struct
+
+    def __missing__(self, k):
+        raise AnalysisError(f"layout of {self.struct} lacks the specified field {k} at its position (see K-LAYOUT)")
 
 
 def check_layout(chk: Check, rel: str, name: str, prop_kind="K-LAYOUT"):
@@ -370,6 +379,16 @@ def check_typestate(chk: Check, ctx: FuncCtx, handle_pred, name_prefix, allow_en
             continue
         node = cfg.node_for(n)
         events.setdefault(node, []).append(((n.lineno, n.col_offset), kind, h, n))
+    ctype_nodes = {id(n) for n, _ in extra_reads}
+    for n in _own_nodes(ctx.func):
+        if isinstance(n, ast.Call) and id(n) not in ctype_nodes and not (
+                isinstance(n.func, ast.Attribute) and n.func.attr in ("seek", "read", "tell", "readinto")):
+            for a in list(n.args) + [k.value for k in n.keywords]:
+                if isinstance(a, (ast.Name, ast.Attribute)):
+                    h = R.expr(ctx, a)
+                    if _looks_like_handle(h) and handle_pred(h):
+                        node = cfg.node_for(n)
+                        events.setdefault(node, []).append(((n.lineno, n.col_offset), "escape", h, n))
     for n, h in extra_reads:  # cstruct type calls: (call node, handle term)
         if handle_pred(h):
             node = cfg.node_for(n)
@@ -383,7 +402,7 @@ def check_typestate(chk: Check, ctx: FuncCtx, handle_pred, name_prefix, allow_en
                 continue
             # previous event in the same node?
             ok = None
-            prev = [e for e in evs[:i] if same_handle(e[2], h)]
+            prev = [e for e in evs[:i] if same_handle(e[2], h) and not _transparent(chk, ctx, e)]
             if prev:
                 ok = _is_abs_seek(chk, ctx, prev[-1], allow_end)
                 why = "seek in the same statement" if ok else f"preceded by {prev[-1][1]} on the same handle without a seek"
@@ -391,6 +410,11 @@ def check_typestate(chk: Check, ctx: FuncCtx, handle_pred, name_prefix, allow_en
                 ok, why = _walk_back(chk, ctx, node, h, events, allow_end)
             results.append((call, ok, why, h))
     return results
+
+
+def _looks_like_handle(h):
+    alts = S.alternatives(h)
+    return any(a[0] == "p" or (a[0] == "call" and a[1] in (".open", "ext:io.BytesIO")) for a in alts)
 
 
 def _is_abs_seek(chk, ctx, ev, allow_end):
@@ -412,6 +436,31 @@ def _is_abs_seek(chk, ctx, ev, allow_end):
     return w == 0 or (allow_end and w == 2)
 
 
+def _transparent(chk, ctx, ev):
+    """Events that keep the position *known relative to the last absolute seek*: sequential reads, tell,
+    relative seeks."""
+    order, kind, h, call = ev
+    if kind in ("read", "tell", "readinto"):
+        return True
+    if kind == "seek":
+        return not _is_abs_seek(chk, ctx, ev, True) and _is_rel_seek(chk, ctx, ev)
+    return False
+
+
+def _is_rel_seek(chk, ctx, ev):
+    call = ev[3]
+    whence = call.args[1] if len(call.args) >= 2 else None
+    for kw in call.keywords:
+        if kw.arg == "whence":
+            whence = kw.value
+    if whence is None:
+        return False
+    try:
+        return chk.prog.fold(whence, ctx.mi, ctx.ci) == 1
+    except NotConst:
+        return False
+
+
 def _walk_back(chk, ctx, node, h, events, allow_end):
     """All backward paths from `node` hit an absolute seek on h before any other I/O on h or the entry."""
     seen = set()
@@ -423,7 +472,7 @@ def _walk_back(chk, ctx, node, h, events, allow_end):
         if n in seen:
             continue
         seen.add(n)
-        evs = [e for e in events.get(n, []) if same_handle(e[2], h)]
+        evs = [e for e in events.get(n, []) if same_handle(e[2], h) and not _transparent(chk, ctx, e)]
         if evs:
             last = evs[-1]
             if _is_abs_seek(chk, ctx, last, allow_end):
@@ -570,3 +619,116 @@ def decision_fields(conds, fieldkey, values, seed=1, extra_fields=None, only_rel
 def all_alternatives_are_field(t, struct, offset, width):
     alts = S.alternatives(t)
     return bool(alts) and all(a[0] == "f" and a[1] == struct and a[2] == offset and a[3] == width for a in alts)
+
+
+# ---------------------------------------------------------------------------------------
+# shared stream rules
+
+
+def _ValSub(term, value, seed=1):
+    """Valuation that forces the value of one (possibly non-leaf) term."""
+    return S.Valuation(seed, override={term: value})
+
+
+def _byte_to_sector(chk: Check, rel, qual, sector_size_term, names=None):
+    """_read(offset, length) -> read_sectors(offset // S, ceil(length / S))"""
+    R = chk.R
+    ctx = chk.func(rel, qual)
+    env = {"offset": ("p", ctx.qual, 1), "length": ("p", ctx.qual, 2), "SS": sector_size_term}
+    calls = [n for n in ast.walk(ctx.func) if isinstance(n, ast.Call) and isinstance(n.func, ast.Attribute)
+             and n.func.attr == "read_sectors"]
+    if not calls:
+        chk.undecided("K-FORMULA", "byte-to-sector", ctx.func, "no read_sectors call in the byte interface")
+        return
+    c = calls[0]
+    chk.formula("K-FORMULA", "byte-to-sector:sector", c, R.expr(ctx, c.args[0]), spec_expr("offset // SS", env))
+    chk.formula("K-FORMULA", "byte-to-sector:count", c, R.expr(ctx, c.args[1]), spec_expr("ceildiv(length, SS)", env))
+    rets = [n for n in ast.walk(ctx.func) if isinstance(n, ast.Return)]
+    ok = len(rets) == 1 and rets[0].value is c
+    chk.decide(ok, "K-FORMULA", "byte-to-sector:returns-sector-read", ctx.func,
+               "the byte interface returns exactly the sector read's result")
+
+
+def ctype_reads(chk: Check, ctx):
+    """cstruct type calls `c_x.T(handle)` / `c_x.T[n](handle)` of a function: (call node, handle term)."""
+    out = []
+    for n in _own_nodes(ctx.func):
+        if not isinstance(n, ast.Call):
+            continue
+        t = chk.R.expr(ctx, n)
+        rd = t[2] if t[0] == "inst" and isinstance(t[2], tuple) and t[2] and t[2][0] == "read" else t if t[0] == "read" else None
+        if rd is None or len(rd) < 5 or rd[4][1] != ctx.qual:
+            continue
+        # the read site must be this very call (not one inlined from elsewhere)
+        h = rd[3]
+        if h[0] in ("c",) or (h[0] == "call" and h[1] in (".ljust", "ext:io.BytesIO", "bytes", ".tobytes")):
+            continue  # parsing from an in-memory buffer
+        if not n.args:
+            continue
+        out.append((n, chk.R.expr(ctx, n.args[0])))
+    return out
+
+
+def _typestate(chk: Check, ctx, tag, allow_end=False, extra=(), handle_pred=None):
+    extra = list(extra) + ctype_reads(chk, ctx)
+    res = check_typestate(chk, ctx, handle_pred or (lambda h: True), tag, allow_end=allow_end, extra_reads=extra)
+    for call, ok, why, h in res:
+        chk.decide(ok, "K-TYPESTATE", f"{tag}:seek-before-read", call, why)
+    return res
+
+
+# ---------------------------------------------------------------------------------------
+# effect classification and decision tables over controlled subjects
+
+
+def classify_effect(t, own_handle=None, parent=None):
+    """Class of the data appended to a result list: ('ZEROS', length) / ('FILE', handle, length) /
+    ('PARENT', callee, args) / ('CALL', name, args) / ('JOIN', [classes]) / ('OTHER', term)."""
+    z = zeros_len(t)
+    if z is not None:
+        return ("ZEROS", z)
+    if t[0] == "join":
+        return ("JOIN", [classify_effect(a, own_handle, parent) for a in t[1]])
+    if t[0] == "call" and t[1].startswith(".") and t[2]:
+        recv = t[2][0]
+        if parent is not None and same_handle(recv, parent):
+            return ("PARENT", t[1], t[2][1:])
+        if t[1] == ".read" and (own_handle is None or same_handle(recv, own_handle)):
+            return ("FILE", recv, t[2][1] if len(t[2]) > 1 else None)
+        if t[1] in (".ljust",):
+            inner = classify_effect(recv, own_handle, parent)
+            return ("PADDED", inner, t[2][1:])
+        return ("OTHER", t)
+    if t[0] == "call":
+        return ("CALL", t[1], t[2])
+    if t[0] == "sub":
+        inner = classify_effect(t[1], own_handle, parent)
+        if inner[0] == "CALL":
+            return ("CALL", inner[1], inner[2], t[2])
+    return ("OTHER", t)
+
+
+def reach_table(conds, controlled: dict, combos):
+    """controlled: name -> term (or ('field', key)); combos: list of dict name -> value.
+    For each combo: do all path conditions that mention a controlled subject hold?"""
+    terms = {n: t for n, t in controlled.items() if not (isinstance(t, tuple) and t and t[0] == "field")}
+    fkeys = {n: t[1] for n, t in controlled.items() if isinstance(t, tuple) and t and t[0] == "field"}
+
+    def mentions(c):
+        def hit(x):
+            if not (isinstance(x, tuple) and x):
+                return False
+            if x in terms.values():
+                return True
+            if x[0] == "f":
+                return (x[1], x[2], x[5]) in fkeys.values() or (x[1], x[2]) in fkeys.values()
+            return False
+        return S.contains(c, hit)
+
+    rel = [(t, p) for t, p in conds if mentions(t)]
+    out = []
+    for combo in combos:
+        ov = {terms[n]: v for n, v in combo.items() if n in terms}
+        fl = {fkeys[n]: v for n, v in combo.items() if n in fkeys}
+        out.append(eval_conds(rel, S.Valuation(1, override=ov, fields=fl)))
+    return out
